@@ -643,7 +643,14 @@ def _helpers(case, out):
                 # a working stack: events and interface lookup do not raise
                 stack.getLayerInterface(YowNetworkLayer)
         elif which == "builder_default":
-            stack = YowStackBuilder().pushDefaultLayers().push(ExtraTop).build()
+            # the builder is told its layers one by one: whatever was pushed before the default layers stays below them
+            below = [type("Below%d" % i, (YowLayer,), {}) for i in range(case.get("below", 0))]
+            b = YowStackBuilder()
+            for cls_ in below:
+                b.push(cls_)
+            if case.get("push_pop"):
+                b.push(ExtraTop).pop()
+            stack = b.pushDefaultLayers().push(ExtraTop).build()
             layers = []
             i = 0
             while True:
@@ -652,7 +659,12 @@ def _helpers(case, out):
                 except IndexError:
                     break
                 i += 1
-            _check_default_layout(out, layers, {k: True for k in OPTIONAL}, "builder_default", extra=True)
+            if [type(l) for l in layers[:len(below)]] != below:
+                out.fail("helpers", "helpers:builder_default:layers_pushed_before_the_defaults_missing",
+                         {"expected_below": len(below), "got": [type(l).__name__ for l in layers[:4]]})
+            else:
+                out.label("pushed_before_defaults=%d" % len(below))
+                _check_default_layout(out, layers[len(below):], {k: True for k in OPTIONAL}, "builder_default", extra=True)
         else:
             raise ValueError(which)
     except Exception as e:
@@ -669,6 +681,9 @@ def _enum_helpers():
     import itertools
     yield {"sub": "helpers", "which": "core", "flags": {}}
     yield {"sub": "helpers", "which": "builder_default", "flags": {}}
+    for below in (1, 2):
+        for pp in (False, True):
+            yield {"sub": "helpers", "which": "builder_default", "flags": {}, "below": below, "push_pop": pp}
     for bits in itertools.product([True, False], repeat=4):
         flags = dict(zip(["groups", "media", "privacy", "profiles"], bits))
         yield {"sub": "helpers", "which": "protocol", "flags": flags}
